@@ -34,7 +34,7 @@ def showRes (role : String) (r : Result) : String :=
   | some e => s!"{role}={errName e}"
 
 def parseTail (w : String) : Option Tail :=
-  if w = "eof" then some .eof else if w = "silent" then some .silent else none
+  if w = "eof" then some .eof else if w = "silent" then some .silent else if w = "deaf" then some .deaf else none
 
 def parseMem (w : String) : Option Mem :=
   if w = "file" then some .file else if w = "memfd" then some .memfd else none
@@ -61,6 +61,7 @@ def step (d : Unit) (line : String) : Unit × String :=
     | _, _ => (d, "bad-op")
   | "cli" :: mt :: t :: ms =>
     match parseMem mt, parseTail t, parseMsgs ms with
+    | some _, some .deaf, some _ => (d, "bad-op")      -- the scripted server is never deaf
     | some m, some tl, some msgs =>
       let r := client m 1 msgs tl
       (d, s!"{showRes "c" r} sent={Drv.joinWith "," (r.sent.map showMsg)}")
